@@ -5,6 +5,8 @@ import (
 	"fmt"
 	"os"
 	"strconv"
+	"runtime/pprof"
+	"time"
 
 	"verif/gosym/gosym"
 )
@@ -13,6 +15,15 @@ func main() {
 	if len(os.Args) < 2 {
 		fmt.Fprintln(os.Stderr, "usage: gosym check <prop> [--tier quick|thorough] | replay <file> | list")
 		os.Exit(2)
+	}
+	if p := os.Getenv("VERIF_PROF"); p != "" {
+		f, _ := os.Create(p)
+		pprof.StartCPUProfile(f)
+		go func() {
+			time.Sleep(45 * time.Second)
+			pprof.StopCPUProfile()
+			f.Close()
+		}()
 	}
 	switch os.Args[1] {
 	case "check":
